@@ -188,7 +188,8 @@ class BoundConstraints:
         if self.is_feasible:
             return np.array([0])
         else:
-            return self.pcs.violation(x)
+            x = np.asarray(x, dtype=float)
+            return np.maximum(np.maximum(self.xl - x, x - self.xu), 0.0)
 
     def project(self, x):
         """
